@@ -1,5 +1,30 @@
-(* C02 -- statements are added as the lemma chain lands; see An_stmts.v *)
-From PM Require Import Calculus.
-Theorem C02_rule_table_is_documented : True.
-Proof. exact Logic.I. Qed.
-Print Assumptions C02_rule_table_is_documented.
+(* C02 -- a function is reported infinite exactly when no derivation exists; both modes agree; a
+   function reported not infinite has a valid choice.  Statements only (model Analysis.v, spec Calculus.v). *)
+From Coq Require Import String List Bool.
+From PM Require Import Semiring Poly Rel Analysis Calculus An_stmts.
+From PM Require An_closed An_func.
+Import ListNotations.
+
+(* reported infinite (by the delta graph's early verdict or by the complete one) => every one of the 3^k
+   choice vectors makes some while/for side condition fail *)
+Theorem C02_infinite_implies_no_derivation :
+  forall f stop res, func_ok f -> analyse f stop = ROk res -> fr_infinite res = true ->
+    forall cs, vec_ok (sites f) cs -> fst (derive_func f cs) = None.
+Proof. exact An_closed.verdict_sound. Qed.
+
+(* reported not infinite => some choice vector of the reported degree has a derivation
+   (hence, by C01, is accepted by the choice object): "has at least one valid choice" *)
+Theorem C02_not_infinite_has_a_derivable_choice :
+  forall f stop res, func_ok f -> analyse f stop = ROk res -> fr_infinite res = false ->
+    exists cs, vec_ok (fr_index res) cs /\ fst (derive_func f cs) <> None.
+Proof. exact An_closed.verdict_complete_all. Qed.
+
+(* the verdict does not depend on the early-stop option, and when not infinite nothing else does either *)
+Theorem C02_modes_agree :
+  forall f r1 r2, analyse f true = ROk r1 -> analyse f false = ROk r2 ->
+    fr_infinite r1 = fr_infinite r2 /\ (fr_infinite r1 = false -> r1 = r2).
+Proof. exact An_closed.modes_agree. Qed.
+
+Print Assumptions C02_infinite_implies_no_derivation.
+Print Assumptions C02_not_infinite_has_a_derivable_choice.
+Print Assumptions C02_modes_agree.
